@@ -248,7 +248,7 @@ Token& Lexer::lex(Token& result) {
     if (c == '$' && columnNumber != 0) {
       // If this is a newline escape, consume it.
       if ((bufferPos + 1 != buffer.end() && bufferPos[1] == '\n') ||
-          (bufferPos + 2 != buffer.end() && bufferPos[1] == '\r' &&
+          (buffer.end() - bufferPos > 2 && bufferPos[1] == '\r' &&
            bufferPos[2] == '\n')) {
         getNextChar();
         getNextChar();
